@@ -728,6 +728,27 @@ func retype(sample value, k uint64) value {
 	panic(fmt.Sprintf("retype %T", sample))
 }
 
+// cloneAggregate copies struct and array values (value semantics): slice elements written by copy and
+// append must not share the element objects, because a later element assignment stores field by
+// field in place (a shifted element and the slot it came from would otherwise change together).
+func cloneAggregate(v value) value {
+	switch x := v.(type) {
+	case structure:
+		c := make(structure, len(x))
+		for i := range x {
+			c[i] = cloneAggregate(x[i])
+		}
+		return c
+	case array:
+		c := make(array, len(x))
+		for i := range x {
+			c[i] = cloneAggregate(x[i])
+		}
+		return c
+	}
+	return v
+}
+
 func (in *interpreter) appendValues(s []value, elems []value) []value {
 	if len(elems) == 0 {
 		return s
@@ -736,7 +757,7 @@ func (in *interpreter) appendValues(s []value, elems []value) []value {
 	if n <= cap(s) {
 		ext := s[:n]
 		for k, e := range elems {
-			in.write(&ext[len(s)+k], e)
+			in.write(&ext[len(s)+k], cloneAggregate(e))
 		}
 		return ext
 	}
@@ -748,8 +769,12 @@ func (in *interpreter) appendValues(s []value, elems []value) []value {
 		newcap = 4
 	}
 	out := make([]value, n, newcap)
-	copy(out, s)
-	copy(out[len(s):], elems)
+	for k := range s {
+		out[k] = cloneAggregate(s[k])
+	}
+	for k := range elems {
+		out[len(s)+k] = cloneAggregate(elems[k])
+	}
 	in.noteRange(out[:newcap])
 	return out
 }
